@@ -418,6 +418,67 @@ def gen_occlusion_program(rng, idx):
                 containers=dict(workspace=dict(kind="rect", w=30), objects={}))
 
 
+def gen_camera_program(rng, idx):
+    """3D observers whose camera is OFF the object's position (cameraOffset) and whose orientation is pitched / rolled (own angles or
+    parentOrientation), narrow view angles, with targets that must (not) be seen placed all around: the view volume starts at
+    position + orientation x cameraOffset, and the visibility requirements must be decided from there."""
+    deg = lambda lo, hi: f"Range({lo}, {hi}) deg"
+    off = [0, 0, 0]
+    for k in rng.sample(range(3), rng.choice([1, 1, 2])):
+        off[k] = rng.choice([-1, 1]) * rng.choice([2, 3, 4, 5])
+    pitch, roll = rng.choice([(40, 0), (70, 0), (-60, 0), (90, 0), (0, 60), (0, -80), (50, 40), (-35, 70)])
+    if rng.random() < 0.5:
+        orient = f"facing ({deg(0, 360)}, {pitch} deg, {roll} deg)"
+    else:
+        orient = f"with parentOrientation ({rng.choice([0, 45, 200])} deg, {pitch} deg, {roll} deg), facing {deg(0, 360)}"
+    hgt = rng.choice([5, 6, 8])
+    L = ["workspace = Workspace(RectangularRegion((0,0), 0, 40, 40))",
+         f"ego = new Object at (0, 0, 0), {orient}, with cameraOffset ({off[0]}, {off[1]}, {off[2]}), "
+         f"with viewAngles ({rng.choice([50, 80, 120])} deg, {rng.choice([40, 60, 90])} deg), with visibleDistance {rng.choice([7, 9, 12])}, "
+         f"with width 0.5, with length 0.5, with height 0.5" + rng.choice(["", ", with occluding False"])]
+    # one target that must be seen (placed anywhere: most samples are rejected), up to two that must not be seen
+    kinds = [rng.choice(["with requireVisible True", "with requireVisible True", "visible from ego"])] if rng.random() < 0.8 else []
+    kinds += ["not visible from ego"] * rng.choice([0, 1, 2] if kinds else [2, 3])
+    for k, kind in enumerate(kinds, 1):
+        shp = rng.choice(["", "", ", with shape SpheroidShape()"])
+        L.append(f"o{k} = new Object at (Range(-9, 9), Range(-9, 9), Range({-hgt}, {hgt})), {kind}, with width 0.6, with length 0.6, with height 0.6{shp}, "
+                 f"with allowCollisions True")
+    if rng.random() < 0.4:   # a wall somewhere near the observer: occlusion from the true camera and from a wrong one differ
+        L.append(f"w = new Object at (Range(-4, 4), Range(-4, 4), Range(-3, 3)), facing ({deg(0, 360)}, {rng.choice([0, 90])} deg, 0 deg), "
+                 f"with width 6, with length 0.3, with height 6, with allowCollisions True")
+    return dict(name=f"prog{idx}", src="\n".join(L) + "\n", seed=rng.randint(0, 10 ** 6), mode2D=False, user_preds=[], family="camera", maxIterations=1500,
+                containers=dict(workspace=dict(kind="rect", w=40), objects={}))
+
+
+def gen_stack_program(rng, idx, long=False):
+    """UPRIGHT boxes (yaw only) piled over one another at random heights: the planar-box fast path of Object.intersects decides the
+    mandatory pairwise requirement by a z-interval test; the optional blanket check must not be what keeps overlapping boxes out.
+    Run with the default WeightedAcceptanceChecker, with BasicChecker (which ignores the blanket check for < 3 pairs or without
+    initialCollisionCheck) and -- `long` -- as a sparse scene sampled hundreds of times, so that the never-rejecting blanket check
+    sorts last and is dropped by the weighted checker, after which partially stacked boxes turn up now and then."""
+    n = 2 if long or rng.random() < 0.6 else 3
+    L = []
+    for k in range(n):
+        name = "ego" if k == 0 else f"o{k}"
+        w, l, h = rng.choice([1, 2, 3]), rng.choice([1, 2, 3]), rng.choice([0.5, 1, 2, 3, 4])
+        if k == 0:
+            pos = "at (0, 0, 0)"
+        elif long:
+            # 96%: far away (no contact at all); 4%: above/below the first box at any height up to well clear of it
+            pos = "at (Discrete({Range(-0.4, 0.4): 0.04, Range(7, 12): 0.96}), Range(-0.4, 0.4), Range(-5, 5))"
+        else:
+            pos = f"at (Range(-0.5, 0.5), Range(-0.5, 0.5), Range(-5, 5))"
+        face = rng.choice(["", f", facing Range(0, 360) deg", f", with parentOrientation ({rng.choice([30, 90, 250])} deg, 0, 0)"])
+        L.append(f"{name} = new Object {pos}{face}, with width {w}, with length {l}, with height {h}")
+    job = dict(name=f"prog{idx}", src="\n".join(L) + "\n", seed=rng.randint(0, 10 ** 6), mode2D=False, user_preds=[],
+               family="stack-long" if long else "stack", containers=dict(workspace=None, objects={}))
+    if long:
+        job.update(light=True, nscenes=1200, maxIterations=3000)
+    else:
+        job["checker"] = rng.choice([None, "basic0", "basic1", "basic1"])
+    return job
+
+
 def scen_tokens(r):
     t = [str(len(r["insts"]))] + [str(i) for i in r["insts"]]
     t += [str(len(r["objs"]))] + [str(i) for i in r["objs"]]
@@ -455,6 +516,9 @@ def check_programs(c, exe, jobs):
             c.violation("defaults", "the requirement list built by generateDefaultRequirements differs from default_requirements of the exported flags",
                         dict(job=job, impl=impl_list, model=m_new.split(";"), matches_oneshot_model=(impl_list == m_old.split(";")),
                              flags=r["flags"], objs=r["objs"], ego=r["ego"]))
+        c.hist("programs:checker:" + str(r.get("checker")) + (":blanket-kept" if r.get("blanket_in_checker") else ":blanket-ignored"))
+        if "blanket_sorted_in" in r:
+            c.hist("programs:weighted:blanket-" + ("still-run" if r["blanket_sorted_in"] else "dropped-at-end") + (":long" if job.get("light") else ""))
         if r["n_checker_reqs"] != len(impl_list) + r["n_user"]:
             c.violation("defaults", "the checker was not given defaultRequirements + userRequirements",
                         dict(job=job, n_checker=r["n_checker_reqs"], n_default=len(impl_list), n_user=r["n_user"]))
@@ -512,6 +576,7 @@ def main():
     quick = c.tier == "quick"
     rng = c.rng
     nh, ns, npg, ngeo = (150, 200, 36, 28) if quick else (2400, 200, 500, 300)
+    ncam, nstack, nlong = (16, 10, 3) if quick else (200, 120, 12)
     hists = [gen_history(rng, i, ns) for i in range(nh)]
     jobs = []
     corpus_dir = os.path.join(common.VERIF, "corpus", PID)
@@ -521,6 +586,12 @@ def main():
                 jobs.append(json.load(open(os.path.join(corpus_dir, f))))
     jobs += [gen_program(rng, i) if i % 3 else gen_occlusion_program(rng, i) for i in range(npg)]
     jobs += [gen_geometry_program(rng, npg + i) for i in range(ngeo)]
+    jobs += [gen_camera_program(rng, npg + ngeo + i) for i in range(ncam)]
+    jobs += [gen_stack_program(rng, npg + ngeo + ncam + i) for i in range(nstack)]
+    jobs += [gen_stack_program(rng, npg + ngeo + ncam + nstack + i, long=True) for i in range(nlong)]
+    for j in jobs[:npg + ngeo]:
+        if "checker" not in j and rng.random() < 0.25:     # the other public sample checker on ordinary programs too
+            j["checker"] = rng.choice(["basic0", "basic1"])
     for j in jobs:
         j.setdefault("nscenes", 3 if quick else 5)
         j.setdefault("maxIterations", 120 if quick else 400)
